@@ -58,6 +58,26 @@ class Mod:
             self.tree = ast.parse(self.src, filename=self.path)
         except (OSError, SyntaxError) as e:
             raise AnalysisError("cannot parse %s: %s" % (self.rel, e))
+        # annotated assignments inside functions (`drop: list = []`) are plain assignments for every rule; a bare
+        # annotation (`x: int`) is no statement at all.  Class-level / module-level annotations are left alone (dataclass-like
+        # declarations are read by the rules that care).
+        class _Ann(ast.NodeTransformer):
+            def __init__(self_):
+                self_.depth = 0
+
+            def visit_FunctionDef(self_, node):
+                self_.depth += 1
+                self_.generic_visit(node)
+                self_.depth -= 1
+                return node
+
+            def visit_AnnAssign(self_, node):
+                if self_.depth == 0:
+                    return node
+                if node.value is None:
+                    return ast.copy_location(ast.Pass(), node)
+                return ast.copy_location(ast.Assign(targets=[node.target], value=node.value), node)
+        self.tree = ast.fix_missing_locations(_Ann().visit(self.tree))
         # memoising decorators: read like a plain property / method by every rule (first evaluation); the functions are
         # recorded so that the memoisation itself is checked (pyutil.memo_sound)
         self.memoised = []
